@@ -2,7 +2,7 @@
    One case per line in, one observation line out, both as byte lists, so the
    OCaml glue only moves bytes and the same function can be evaluated by
    vm_compute for the kernel cross-check.  No theorem depends on this file. *)
-From Rules Require Import Eval.
+From Rules Require Import Eval NestedError.
 From Coq Require Import Ascii String.
 Open Scope N_scope.
 
@@ -248,8 +248,67 @@ Definition peout (o : eout) : bytes :=
 
 Definition bad : bytes := s2b " BADCASE".
 
+(* ---------- NestedError histories ---------- *)
+Definition sexp_aval (x : sexp) : option aval :=
+  match x with
+  | SList [Atom t; Atom v] => if atom_is t "s" then option_map AStr (atom_bytes v) else None
+  | SList [Atom t; Atom _; Atom e] =>
+      if atom_is t "v" then
+        (if atom_is e "none" then Some (AOther None) else option_map (fun b => AOther (Some b)) (atom_bytes e))
+      else None
+  | _ => None
+  end.
+
+Definition sexp_nop (x : sexp) : option nop :=
+  match x with
+  | SList [Atom t; Atom k] =>
+      match atom_N k with
+      | Some n => if atom_is t "error" then Some (NError (N.to_nat n))
+                  else if atom_is t "orig" then Some (NOriginal (N.to_nat n))
+                  else if atom_is t "set" then Some (NSet (N.to_nat n) []) else None
+      | None => None
+      end
+  | SList (Atom t :: Atom k :: kvs) =>
+      if atom_is t "set" then
+        match atom_N k, map_opt' (fun e => match e with
+                                           | SList [Atom key; v] =>
+                                               match atom_bytes key, sexp_aval v with
+                                               | Some kb, Some av => Some (kb, av)
+                                               | _, _ => None
+                                               end
+                                           | _ => None
+                                           end) kvs with
+        | Some n, Some upd => Some (NSet (N.to_nat n) upd)
+        | _, _ => None
+        end
+      else None
+  | _ => None
+  end.
+
+Definition pnout (o : nout) : bytes :=
+  match o with
+  | NOutSet => [115]
+  | NOutText t => 116 :: hex_of_bytes t
+  | NOutOrig t => 111 :: hex_of_bytes t
+  end.
+
+Definition run_nerr (id : bytes) (cause : bytes) (msgs ops : list sexp) : bytes :=
+  match map_opt' (fun e => match e with Atom a => atom_bytes a | _ => None end) msgs, map_opt' sexp_nop ops with
+  | Some ms, Some nops =>
+      id ++ kv "out" (join [59] (map pnout (nrun (mkChain cause (map (fun m => mkLayer m []) ms)) nops)))
+  | _, _ => id ++ bad
+  end.
+
+
 Definition run_case (x : sexp) : bytes :=
   match x with
+  | SList [Atom k; Atom id; Atom cause; SList msgs; SList ops] =>
+      if atom_is k "nerr" then
+        match atom_bytes cause with
+        | Some cb => run_nerr id cb msgs ops
+        | None => id ++ bad
+        end
+      else id ++ bad
   | SList [Atom k; Atom id; Atom rule; o] =>
       if atom_is k "eval" then
         match atom_bytes rule, sexp_obj o with
@@ -331,6 +390,7 @@ Definition run_case (x : sexp) : bytes :=
   | SList (Atom _ :: Atom id :: _) => id ++ bad
   | _ => s2b "? BADCASE"
   end.
+
 
 Definition run_line (line : bytes) : bytes :=
   match read_sexp line with
